@@ -130,3 +130,5 @@ func debugRetGlobals(args []string) {
 		}
 	}
 }
+
+func osGetenv(k string) string { return os.Getenv(k) }
